@@ -41,6 +41,7 @@ pub struct Shared {
 	pub rsa_ca_a: Certificate,  // one name ...
 	pub rsa_ca_b: Certificate,  // ... under two RSA keys of the same size (a CA key roll-over)
 	pub k_rsa3: LiveKey,        // RSA-3072, loaded through the algorithm-detecting entry point where the build has one
+	pub k_ed_copy: LiveKey,     // the key of `k_ed` loaded a second time: an equal key in another object
 }
 
 fn key_from_file(dir: &str, name: &str, alg: &str, remote: bool) -> LiveKey {
@@ -183,7 +184,8 @@ pub fn setup(dir: &str, remote: bool) -> Shared {
 		let info = info_from_pkey("krsa3", "rsa-sha256", &pkey, "file");
 		live_from_info(info, if remote || !cfg!(feature = "crypto") { "remote" } else { "auto-pkcs8" }).unwrap()
 	};
-	Shared { k_ed, k_rsa, k_p256, issuer, issuer_snapshot: snap, k_ed2, k_rsa2, issuer_n2, issuer_k2, rsa_ca_a, rsa_ca_b, k_rsa3 }
+	let k_ed_copy = key_from_file(dir, "ked", "ed25519", remote);
+	Shared { k_ed, k_rsa, k_p256, issuer, issuer_snapshot: snap, k_ed2, k_rsa2, issuer_n2, issuer_k2, rsa_ca_a, rsa_ca_b, k_rsa3, k_ed_copy }
 }
 
 fn shared_snapshot(k: &LiveKey, issuer: &Certificate) -> String {
@@ -240,7 +242,9 @@ pub fn gen_opt(t: &str, sh: &Shared, tid: u64, pid: u32, phase: &str, case: &str
 			}
 		},
 		"cert-issued" => {
-			let subj = if t.ends_with("/2") { &sh.k_ed } else { &sh.k_p256 };
+			// where subject key and issuer key are the same key, every second caller holds it in two objects (loaded twice):
+			// what is generated depends on the key, not on which object carries it
+			let subj = if t.ends_with("/2") { if tid % 2 == 1 { &sh.k_ed_copy } else { &sh.k_ed } } else { &sh.k_p256 };
 			let p = to_params(&cert_template(t)).unwrap();
 			let before = p.clone();
 			let (iss, ikey) = issuer_of(t, sh);
